@@ -95,7 +95,7 @@ def brief(m):
     if m is None:
         return None
     pl = bytes(m["payload"])
-    return {"code": rc.code_str(m["code"]), "token": bytes(m["token"]).hex(),
+    return {"code": rc.code_str(m["code"]), "token": bytes(m.get("token") or b"").hex(),
             "options": [[n, (v.hex() if len(v) <= 16 else "%d bytes sha %s" % (len(v), hashlib.sha256(v).hexdigest()[:8]))]
                         for n, v in m["options"]],
             "payload": pl.hex() if len(pl) <= 16 else "%d bytes sha %s" % (len(pl), hashlib.sha256(pl).hexdigest()[:8])}
@@ -1076,32 +1076,25 @@ def judge_endpoint(O, ob):
     if ob["out_err"] or ob["out_rest"]:
         v.append(("C15/output-not-decodable", {"error": ob["out_err"], "rest": ob["out_rest"][:32].hex()}))
     aborts = [m for m in ob["out"] if m["code"] == rc.ABORT]
-    said = False
-    if O.end == "abort":
+    if ob["fatal"]:
+        # an exception left data_received: the frame was not processable for this
+        # endpoint and the connection went down without an Abort, whatever else was due
+        v.append((NO_ABORT_KIND["unparsable"], {"exception_escaped_data_received": ob["fatal"], "model_end": [O.end, O.why],
+                                                "abort_written": bool(aborts), "close_reason": ob["close_reason"]}))
+    elif O.end == "abort":
         if not aborts:
-            kind = NO_ABORT_KIND.get(O.why, "C15/no-abort")
-            if O.bad_utf8 and ob["fatal"]:
-                kind = NO_ABORT_KIND["unparsable"]
-            v.append((kind, {"why": O.why, "at_offset": O.end_off, "fatal": ob["fatal"],
-                                                                   "closed": ob["closing"], "close_reason": ob["close_reason"]}))
-            said = True
+            v.append((NO_ABORT_KIND.get(O.why, "C15/no-abort"), {"why": O.why, "at_offset": O.end_off, "closed": ob["closing"],
+                                                                   "close_reason": ob["close_reason"]}))
         elif ob["close_reason"] != "close":
             v.append(("C15/abort-without-close", {"why": O.why, "close_reason": ob["close_reason"]}))
     elif O.end != "unchecked":
         if aborts:
             v.append(("C15/unexpected-abort", {"abort": brief(aborts[0]), "diagnostic": aborts[0]["payload"][:60].decode("latin-1"),
                                                "empties": O.empties, "end": O.end}))
-            said = True
         elif O.end == "open" and ob["closing"]:
-            if ob["fatal"]:
-                v.append(("C15/exception-escapes-data-received", {"exception": ob["fatal"]}))
-            else:
-                v.append(("C15/unexpected-close", {"close_reason": ob["close_reason"], "empties": O.empties}))
-            said = True
+            v.append(("C15/unexpected-close", {"close_reason": ob["close_reason"], "empties": O.empties}))
         elif O.end == "peer_close" and not ob["closing"]:
             v.append(("C15/release-not-closing", {"peer_sent": O.why}))
-    if ob["fatal"] and not said:
-        v.append(("C15/exception-escapes-data-received", {"exception": ob["fatal"]}))
     dv, stray = compare_seq(O.dispatch, ob["tap"], why_no_csm=(O.why == "no-csm"))
     v += dv
     pongs = sorted(m["token"] for m in ob["out"] if m["code"] == rc.PONG)
@@ -1134,7 +1127,7 @@ def judge_branches(stream, ob, extra):
         v += extra(O, stray)
         if not v:
             return O, []
-        if best is None or len(v) < len(best[1]):
+        if best is None or len({k for k, _ in v}) < len({k for k, _ in best[1]}):
             best = (O, v)
     return best
 
@@ -1267,12 +1260,14 @@ def run_bs(sim, scn, chunk, wid, nworld):
             else:
                 v.append(("C15/unexpected-output", {"written": brief(m)}))
         if O.end == "open":
-            miss = [t for t in expected if t not in seen]
+            miss = [t for t in expected if t not in seen and t not in stray]
             if miss:
                 v.append(("C15/response-missing", {"tokens": [t.hex() for t in miss[:5]]}))
             want = [strip_path(d) for d in O.dispatch if not d.get("optional") and d["code"] >> 5 == 0 and rc.opts(d, rc.URI_PATH) == [b"e"]]
             got = [h["m"] for h in handler_log]
-            if [msg_key(m) for m in want] != [msg_key(m) for m in got]:
+            if stray:
+                pass  # a message was handed on that should not have been (reported above); the handler log is disturbed by it
+            elif [msg_key(m) for m in want] != [msg_key(m) for m in got]:
                 if len(want) != len(got):
                     v.append(("C15/handler-invocations", {"expected": len(want), "seen": len(got)}))
                 else:
@@ -1294,8 +1289,7 @@ def run_bs(sim, scn, chunk, wid, nworld):
     peer.close()
     sim.run()
     shutdown_ctx(sim, [srv])
-    obs = {"end": [O.end, O.why] if O.end != "open" or not ob["closing"] else ["closed", None],
-           "aborted": any(m["code"] == rc.ABORT for m in ob["out"]), "closing": ob["closing"],
+    obs = {"aborted": any(m["code"] == rc.ABORT for m in ob["out"]), "closing": ob["closing"],
            "tap": [hashlib.sha256(repr(msg_key(m)).encode()).hexdigest()[:12] for m in ob["tap"]],
            "pongs": sorted(m["token"].hex() for m in ob["out"] if m["code"] == rc.PONG),
            "handler": ([hashlib.sha256(repr(msg_key(h["m"])).encode()).hexdigest()[:12] for h in handler_log] if O.end == "open" else None)}
@@ -1654,7 +1648,7 @@ def execute(sim, scn):
         second = runner(sim, dict(scn, fault=None), {"c2s": WHOLE, "s2c": WHOLE}, "b", 2)
         results.append(second)
         sim.probe("twin_compared")
-        if first["obs"] != second["obs"]:
+        if first["obs"] != second["obs"] and not sim.violations:
             diff = sorted(k for k in set(first["obs"]) | set(second["obs"]) if first["obs"].get(k) != second["obs"].get(k))
             sim.violation("C15/chunking-changes-behaviour", {"differs": diff, "chunked": {k: first["obs"].get(k) for k in diff},
                                                              "whole": {k: second["obs"].get(k) for k in diff},
